@@ -314,6 +314,19 @@ fn gen_conditions(ctx: &mut Ctx) -> Result<String, String> {
             && body[..end].contains("fnsub_directories(cache:AnyCache,id:&SharedString,f:implFnMut(&str))->io::Result<()>{T::sub_directories(cache,id,f)}");
         out.push_str(&format!("/-- `Arc<T>` lists a directory exactly as `T` does: `select_ids` AND `sub_directories` forward to `T` -/\ndef arcDirLoadableForwards : Bool := {fwd}\n\n"));
     }
+    // `impl Compound for OnceInitCell<U, T>` and `for OnceInitCell<Option<U>, T>` (feature `utils`): HOT_RELOADED is U's
+    {
+        let cell_src: String = std::fs::read_to_string(ctx.repo.join("src/utils/cell.rs")).map_err(|e| e.to_string())?.chars().filter(|c| !c.is_whitespace()).collect();
+        let n_impls = cell_src.matches("CompoundforOnceInitCell<").count();
+        let mut ok = n_impls == 2;
+        for head in ["CompoundforOnceInitCell<U,T>{", "CompoundforOnceInitCell<Option<U>,T>{"] {
+            match cell_src.find(head) {
+                Some(at) => { let body = &cell_src[at..]; let end = body[1..].find("impl<").map(|e| e + 1).unwrap_or(body.len()); if !body[..end].contains("constHOT_RELOADED:bool=U::HOT_RELOADED;") { ok = false; } }
+                None => ok = false,
+            }
+        }
+        out.push_str(&format!("/-- both `Compound` impls of `OnceInitCell` (plain and `Option` seed) are hot-reloaded iff the wrapped type is -/\ndef cellInheritsHotReloaded : Bool := {ok}\n\n"));
+    }
     // Record::insert_*: every insertion is guarded by the identity of the reloader
     {
         let rec = ctx.file("src/hot_reloading/records.rs")?.clone();
